@@ -343,6 +343,10 @@ class Norm:
         vals = [self.cval(a) for a in args]
         if any(v is None for v in vals):
             return None
+        return self.eval_body(callee, vals)
+
+    def eval_body(self, callee, vals):
+        """value of `callee(vals...)` for a small pure function (declarations, `if (c) return a;`, `return b;`, switch-free)"""
         sub = Norm(callee, {q['name']: v for q, v in zip(callee.params, vals)}, self.inline)
         sub._depth = self._depth + 1
         sub.val, sub.assume = self.val, self.assume
@@ -960,6 +964,14 @@ class SymLin:
                     continue
                 raise Unknown('statement %s' % k)
         return None
+
+
+def eval_function(prog, name, vals):
+    """constant value of a small pure repository function on constant arguments, or None"""
+    fs = [f for f in prog.fns(name) if f.body is not None and len(f.params) == len(vals)]
+    if len(fs) != 1:
+        return None
+    return Norm(fs[0]).eval_body(fs[0], list(vals))
 
 
 def show(atoms):
